@@ -171,11 +171,33 @@ func genUpdates() (string, error) {
 		s += fmt.Sprintf("/-- `%s` calls `configmanager.SetRouter` (%d call site(s)). -/\ndef %s_recordsRouter : Bool := %s\n",
 			fn, n, lowerFirst(fn), boolLit(n >= 1))
 	}
-	// AddOrUpdateRouters: the call must be on the common path (after the add/update branches)
+	// AddOrUpdateRouters: the call must be on the common path (after the add/update branches), or on the unconditional path of
+	// BOTH branches of the lookup `if v, ok := …Load(…); ok { update } else { add }`
 	{
 		d := findFunc(rf, "routersManagerImpl", "AddOrUpdateRouters")
-		s += fmt.Sprintf("/-- in `AddOrUpdateRouters` the `SetRouter` call is at the top level of the body (reached by the add and the update branch). -/\ndef addOrUpdateRouters_recordsOnBothBranches : Bool := %s\n\n",
-			boolLit(topLevelCalls(d.Body, "configmanager.SetRouter") >= 1))
+		both := topLevelCalls(d.Body, "configmanager.SetRouter") >= 1
+		for _, st := range d.Body.List {
+			if is, ok := st.(*ast.IfStmt); ok && is.Else != nil {
+				if eb, ok := is.Else.(*ast.BlockStmt); ok && topLevelCalls(is.Body, "configmanager.SetRouter") >= 1 && topLevelCalls(eb, "configmanager.SetRouter") >= 1 {
+					both = true
+				}
+			}
+		}
+		s += fmt.Sprintf("/-- in `AddOrUpdateRouters` the `SetRouter` call is reached by the add and by the update branch (at the top level of the body, or at the top level of both branches). -/\ndef addOrUpdateRouters_recordsOnBothBranches : Bool := %s\n\n",
+			boolLit(both))
+	}
+
+	// ---- SetRouter: which fields of the router are copied into the store, and under which condition
+	{
+		ef, err := parse("pkg/configmanager/effectiveconfig.go")
+		if err != nil {
+			return "", err
+		}
+		facts, err := c12mSetRouter(ef)
+		if err != nil {
+			return "", err
+		}
+		s += facts
 	}
 
 	// ---- cluster manager
